@@ -344,6 +344,10 @@ fn eval_ops_inner(req: &str) -> ImplOut {
                     _ => {}
                 }
             }
+            // the names local to the deleted sheet go with it
+            if let Some((n, _, _)) = post_names.iter().find(|(_, sid, _)| *sid == Some(del)) {
+                out = out.fail("c32:delete:local-name-left-behind", &format!("{n} is still stored with sheet id {del}"));
+            }
             // no name may change scope: a name of the deleted sheet must not show up as a global name
             let globals_before = pre_list.iter().filter(|(_, s, _)| s.is_none()).count();
             let globals_after = m.get_defined_name_list().iter().filter(|(_, s, _)| s.is_none()).count();
